@@ -32,3 +32,13 @@ pub fn slice_get_unchecked_mut<T>(s: &mut [T], i: usize) -> (r: &mut T)
 pub assume_specification<T, E> [Result::<T, E>::unwrap_or] (r: Result<T, E>, default: T) -> (out: T)
     ensures out == (match r { Ok(v) => v, Err(_) => default });
 
+
+// <[T]>::copy_within / ptr::copy inside one slice (memmove): the source block lands at `dest`, everything else is unchanged.
+// The in-bounds precondition is an obligation (C19 for the ptr::copy branch).
+#[verifier::external_body]
+pub fn slice_copy_within<T: Copy>(s: &mut [T], src_start: usize, src_end: usize, dest: usize)
+    requires src_start <= src_end, src_end <= old(s)@.len(), dest + (src_end - src_start) <= old(s)@.len()
+    ensures final(s)@.len() == old(s)@.len(),
+        forall|i: int| 0 <= i < old(s)@.len() ==> #[trigger] final(s)@[i] ==
+            (if dest as int <= i < dest as int + (src_end - src_start) { old(s)@[src_start as int + (i - dest as int)] } else { old(s)@[i] })
+{ s.copy_within(src_start..src_end, dest) }
